@@ -90,46 +90,86 @@ PRELUDE = 'function D(i, r) { out("#" i " " tv(r) " T=" tv(T) " C=" tv(A) " RS="
           '" NF=" tv(NF) " R0=" tv($0) " X=" tv(X) " G=" gsig()); }\n'
 
 
-def stmt(i, op):
-    """op = (name, toks, twin) -> hawk statements printing '#i ...' (and 'Mi ...' for regex-driven calls)"""
+CLASSES = ["alnum", "alpha", "blank", "cntrl", "digit", "graph", "lower", "print", "punct", "space", "upper", "xdigit"]
+
+
+def parts(i, op):
+    """op = (name, toks, twin) -> (statements to run first, the call expression); an 'i:' prefix on the name = the call
+    runs with IGNORECASE = 1"""
     name, t, twin = op
+    if name.startswith("i:"):
+        name = name[2:]
     ns = "str::" if twin else ""
     opt = lambda tok: "" if tok == "-" else ", " + lit(tok)
     if name == "length":
-        return "D(%d, %slength(%s));" % (i, ns, lit(t[0]))
+        return "", "%slength(%s)" % (ns, lit(t[0]))
     if name == "substr":
-        return "D(%d, %ssubstr(%s, %s%s));" % (i, ns, lit(t[0]), lit(t[1]), opt(t[2]))
+        return "", "%ssubstr(%s, %s%s)" % (ns, lit(t[0]), lit(t[1]), opt(t[2]))
     if name == "index":
-        return "D(%d, %sindex(%s, %s%s));" % (i, ns, lit(t[0]), lit(t[1]), opt(t[2]))
+        return "", "%sindex(%s, %s%s)" % (ns, lit(t[0]), lit(t[1]), opt(t[2]))
     if name == "rindex":
-        return "D(%d, str::rindex(%s, %s%s));" % (i, lit(t[0]), lit(t[1]), opt(t[2]))
+        return "", "str::rindex(%s, %s%s)" % (lit(t[0]), lit(t[1]), opt(t[2]))
     if name in ("tolower", "toupper"):
-        return "D(%d, %s%s(%s));" % (i, ns, name, lit(t[0]))
+        return "", "%s%s(%s)" % (ns, name, lit(t[0]))
     if name in ("split", "splita"):
         fn = "str::splita" if name == "splita" else ns + "split"
         m = ""
         if t[1] != "-" and t[1] != "N":
             m = 'out("M%d " rawtable(%s, %s, 0)); ' % (i, patstr(t[1]), lit(t[0]))
-        return m + "D(%d, %s(%s, A%s));" % (i, fn, lit(t[0]), opt(t[1]))
+        return m, "%s(%s, A%s)" % (fn, lit(t[0]), opt(t[1]))
     if name in ("sub", "gsub"):
         tl = "@nil" if t[2] == "N" else lit(t[2])
-        return 'T = %s; out("M%d " rawtable(%s, T, 0)); D(%d, %s%s(%s, %s, T));' % (
-            tl, i, patstr(t[0]), i, ns, name, lit(t[0]), lit(t[1]))
+        return 'T = %s; ' % tl, 'MT(%d, rawtable(%s, T, 0)) %s%s(%s, %s, T)' % (i, patstr(t[0]), ns, name, lit(t[0]), lit(t[1]))
     if name in ("match", "matcha"):
-        return 'out("M%d " rawtable(%s, %s, 1)); D(%d, match(%s, %s%s));' % (
-            i, patstr(t[1]), lit(t[0]), i, lit(t[0]), lit(t[1]), ", A" if name == "matcha" else "")
+        return 'out("M%d " rawtable(%s, %s, 1)); ' % (i, patstr(t[1]), lit(t[0])), "match(%s, %s%s)" % (
+            lit(t[0]), lit(t[1]), ", A" if name == "matcha" else "")
     if name == "smatch":
-        return 'out("M%d " rawtable(%s, %s, 1)); D(%d, str::match(%s, %s%s));' % (
-            i, patstr(t[1]), lit(t[0]), i, lit(t[0]), lit(t[1]), opt(t[2]))
+        return 'out("M%d " rawtable(%s, %s, 1)); ' % (i, patstr(t[1]), lit(t[0])), "str::match(%s, %s%s)" % (lit(t[0]), lit(t[1]), opt(t[2]))
     if name == "smatcha":
         st = "(1)" if t[2] == "-" else lit(t[2])
-        return 'out("M%d " rawtable(%s, %s, 1)); D(%d, str::match(%s, %s, %s, A));' % (
-            i, patstr(t[1]), lit(t[0]), i, lit(t[0]), lit(t[1]), st)
+        return 'out("M%d " rawtable(%s, %s, 1)); ' % (i, patstr(t[1]), lit(t[0])), "str::match(%s, %s, %s, A)" % (lit(t[0]), lit(t[1]), st)
+    # ---- functions implemented in mod-str.c itself (str:: only)
+    if name in ("trim", "ltrim", "rtrim", "normspace"):
+        return "", "str::%s(%s)" % (name, lit(t[0]))
+    if name == "trimf":
+        return "", "str::trim(%s%s)" % (lit(t[0]), opt(t[1]))
+    if name == "subchar":
+        return "", "str::subchar(%s, %s)" % (lit(t[0]), lit(t[1]))
+    if name == "tocharcode":
+        return "", "str::tocharcode(%s%s)" % (lit(t[0]), opt(t[1]))
+    if name in ("fromcharcode", "frombcharcode"):
+        return "", "str::%s(%s)" % (name, ", ".join(lit(x) for x in t))
+    if name.startswith("is:"):
+        return "", "str::is%s(%s)" % (name[3:], lit(t[0]))
+    if name in ("tombs", "frommbs"):
+        return "", "str::%s(%s%s)" % (name, lit(t[0]), opt(t[1]))
+    if name == "tonum":
+        return "", "str::tonum(%s%s)" % (lit(t[0]), opt(t[1]))
     raise ValueError(name)
 
 
+def stmt(i, op):
+    """hawk statements printing '#i ...' (and 'Mi ...' for regex-driven calls)"""
+    if op[0] in ("sub0", "gsub0"):       # two-argument form: the record is the target; it is reset after the dump
+        t = op[1]
+        return '$0 = %s; out("M%d " rawtable(%s, $0, 0)); D(%d, %s%s(%s, %s)); $0 = "";' % (
+            lit(t[2]), i, patstr(t[0]), i, "str::" if op[2] else "", op[0][:-1], lit(t[0]), lit(t[1]))
+    pre, expr = parts(i, op)
+    if expr.startswith("MT("):        # sub/gsub: the table must be taken after T is set and under the same IGNORECASE
+        k = expr.index(") ") + 1
+        k = expr.index("))") + 2
+        tbl, expr = expr[:k], expr[k + 1:]
+        tbl = 'out("M%s " %s); ' % (tbl[3:tbl.index(",")], tbl[tbl.index(",") + 2:-1])
+    else:
+        tbl = ""
+    if op[0].startswith("i:"):
+        pre1, pre2 = (pre, "") if not pre.startswith("out(") else ("", pre)      # table statements run under IGNORECASE too
+        return "%sIGNORECASE = 1; %s%sRV = %s; IGNORECASE = @nil; D(%d, RV);" % (pre1, pre2, tbl, expr, i)
+    return "%s%sD(%d, %s);" % (pre, tbl, i, expr)
+
+
 def program(ops, base):
-    body = [PRELUDE, 'BEGIN {', 'X = "s"; gsig();']
+    body = [PRELUDE, 'BEGIN {', 'X = "s"; $0 = ""; gsig();']
     for j, op in enumerate(ops):
         body.append(stmt(base + j, op))
     body.append('}')
@@ -360,7 +400,7 @@ def spec_boundary(rindex, n, start):
 
 def spec_index(s, p, start):
     b = spec_boundary(False, len(s), start)
-    if not (1 <= b <= len(s)):
+    if not (1 <= b <= len(s) + 1):          # a search may start right behind the last character (empty suffix)
         return 0
     for i in range(b - 1, len(s) - len(p) + 1):
         if s[i:i + len(p)] == p:
@@ -479,12 +519,169 @@ def spec_split_rex(find, s):
         pos = m[0] + m[1]
 
 
+def spec_split_pred(s, is_delim):
+    if not s:
+        return []
+    pieces, cur = [], []
+    for c in s:
+        if is_delim(c):
+            pieces.append(cur); cur = []
+        else:
+            cur.append(c)
+    return pieces + [cur]
+
+
+def cls(name, c, wide):
+    """character classes of the generated alphabet: ASCII as in the C locale, Latin-1 letters for wide characters"""
+    upper = 65 <= c <= 90 or (wide and 0xC0 <= c <= 0xDE and c != 0xD7)
+    lower = 97 <= c <= 122 or (wide and 0xDF <= c <= 0xFF and c != 0xF7)
+    digit = 48 <= c <= 57
+    alpha = upper or lower
+    if name == "alnum": return alpha or digit
+    if name == "alpha": return alpha
+    if name == "blank": return c in (32, 9)
+    if name == "cntrl": return c < 32 or c == 127
+    if name == "digit": return digit
+    if name == "graph": return 33 <= c <= 126 or (wide and alpha and c >= 128)
+    if name == "lower": return lower
+    if name == "print": return 32 <= c <= 126 or (wide and alpha and c >= 128)
+    if name == "punct": return 33 <= c <= 126 and not (alpha or digit)
+    if name == "space": return c in SPACE
+    if name == "upper": return upper
+    if name == "xdigit": return digit or 65 <= c <= 70 or 97 <= c <= 102
+    raise ValueError(name)
+
+
+def spec_normspace(s):
+    """words separated by the first space character of the run that followed them; nothing before the first or
+    after the last word"""
+    out, pending = [], None
+    for c in s:
+        if c in SPACE:
+            if out and pending is None:
+                pending = c
+        else:
+            if pending is not None:
+                out.append(pending); pending = None
+            out.append(c)
+    return out
+
+
+def spec_strip(s, left, right):
+    a, b = 0, len(s)
+    while left and a < b and s[a] in SPACE:
+        a += 1
+    while right and b > a and s[b - 1] in SPACE:
+        b -= 1
+    return s[a:b]
+
+
+def spec_simple_num(base, txt):
+    """sign + digits valid in the base; None = not in the domain this property speaks about"""
+    neg = False
+    if txt[:1] in ([45], [43]):
+        neg = txt[0] == 45; txt = txt[1:]
+    if not txt or (base == 0 and txt[0] == 48 and len(txt) > 1) or base not in (0, 2, 8, 10, 16):
+        return None
+    try:
+        st = "".join(chr(c) for c in txt)
+        if not all(ch in "0123456789abcdefABCDEF" for ch in st):
+            return None
+        v = int(st, base or 10)
+    except ValueError:
+        return None
+    return -v if neg else v
+
+
+def oracle_modstr(name, t, sh):
+    """the functions implemented in mod-str.c itself; NotImplemented = not one of them"""
+    v = t[0] if t else None
+    byt = v is not None and is_bytes(v)
+    text = (lambda: conv_bcs(v) if byt else conv_str(v))
+    ty = "mbs" if byt else "str"
+    if name in ("trim", "ltrim", "rtrim"):
+        return sh.line(tvp((ty, spec_strip(text(), name != "rtrim", name != "ltrim"))))
+    if name == "normspace":
+        return sh.line(tvp((ty, spec_normspace(text()))))
+    if name == "trimf":
+        if t[1] == "-":
+            return sh.line(tvp((ty, spec_strip(text(), True, True))))
+        f = to_int(t[1])
+        if f is None:
+            return None
+        return sh.line(tvp((ty, spec_normspace(text()) if f & 1 else spec_strip(text(), True, True))))
+    if name in ("subchar", "tocharcode"):
+        pos = 1 if (name == "tocharcode" and t[1] == "-") else to_int(t[1])
+        if pos is None:
+            return None
+        s = text()
+        if not (1 <= pos <= len(s)):
+            return sh.line("nil")
+        if name == "tocharcode":
+            return sh.line("int:%d" % s[pos - 1])
+        return sh.line(("bchar:%x" if byt else "char:%x") % s[pos - 1])
+    if name in ("fromcharcode", "frombcharcode"):
+        codes = [to_int(x) for x in t]
+        wide = name == "fromcharcode"
+        if any(c is None for c in codes):
+            return None
+        if wide and not all(0 <= c < 0xD800 or 0xE000 <= c < 0x10000 for c in codes):
+            return None
+        if not wide and not all(0 <= c < 256 for c in codes):
+            return None
+        if len(codes) == 1:
+            return sh.line(("char:%x" if wide else "bchar:%x") % codes[0])
+        return sh.line(tvp(("str" if wide else "mbs", codes)))
+    if name.startswith("is:"):
+        s = text()
+        return sh.line("int:%d" % (1 if s and all(cls(name[3:], c, not byt) for c in s) else 0))
+    if name in ("tombs", "frommbs"):
+        enc = t[1]
+        unknown = enc != "-" and conv_str(enc) != [ord(c) for c in "utf8"]
+        if name == "tombs":
+            return sh.line(tvp(("mbs", [] if unknown else conv_bcs(v))))
+        return sh.line(tvp(("str", [] if unknown else conv_str(v))))
+    if name == "tonum":
+        if v == "N":
+            return sh.line("int:0")
+        if v[0] in "IF":
+            return sh.line(tv_tok(v))
+        base = 0 if t[1] == "-" else to_int(t[1])
+        if base is None or base < 0:
+            return None
+        n = spec_simple_num(base, text())
+        return None if n is None else sh.line("int:%d" % n)
+    return NotImplemented
+
+
+def oracle_sig(op, exp, got):
+    """classes of equation breaks that are recorded findings (KNOWN_FINDINGS.txt) while their repair is pending"""
+    name, t, twin = op
+    e, g = exp.split(" ")[0], got.split(" ")[0]
+    same_rest = exp.split(" ")[1:] == got.split(" ")[1:]
+    if not same_rest and not name.startswith("i:split"):
+        return None
+    if name in ("index", "i:index") and g == "int:0" and e != "int:0":
+        byt = is_bytes(t[0])
+        n = len(conv_bcs(t[0]) if byt else conv_str(t[0]))
+        pl = len(conv_bcs(t[1]) if byt else conv_str(t[1]))
+        if pl == 0 and e == "int:%d" % (n + 1):
+            return "index-empty-in-empty"
+    if name in ("i:split", "i:splita") and is_bytes(t[0]) and t[1] not in ("-", "N") and t[1][0] != "R":
+        d = conv_bcs(t[1])
+        if len(conv_str(t[1])) <= 1 and any(c >= 0x80 for c in d):
+            return "split-ignorecase-high-byte-delimiter"
+    if name == "frombcharcode" and len(t) == 1 and e.startswith("bchar:") and g == "char:" + e[6:]:
+        return "frombcharcode-single-char-kind"
+    return None
+
+
 class Shadow:
     def __init__(self):
         self.T = "nil"; self.C = "nil"; self.RS = "nil"; self.RL = "nil"
 
-    def line(self, r):
-        return "%s T=%s C=%s RS=%s RL=%s NF=int:0 R0=nil X=str:73 G==" % (r, self.T, self.C, self.RS, self.RL)
+    def line(self, r, nf=0, rec0=()):
+        return "%s T=%s C=%s RS=%s RL=%s NF=int:%d R0=str:%s X=str:73 G==" % (r, self.T, self.C, self.RS, self.RL, nf, hx(rec0))
 
 
 def pat_string(tok):
@@ -494,7 +691,13 @@ def pat_string(tok):
 def oracle_expected(op, table, sh):
     """what the defining equations say hawk must print for this call (None: outside the specified domain)"""
     name, t, twin = op
+    ic = name.startswith("i:")
+    if ic:
+        name = name[2:]
     tbl = parse_table(table)
+    r = oracle_modstr(name, t, sh)
+    if r is not NotImplemented:
+        return r
     if name == "length":
         v = t[0]
         n = len(conv_bcs(v)) if v[0] in "BK" else len(conv_str(v))
@@ -511,9 +714,11 @@ def oracle_expected(op, table, sh):
         if t[2] != "-" and st is None:
             return None
         f = spec_rindex if name == "rindex" else spec_index
-        if is_bytes(t[0]):
-            return sh.line("int:%d" % f(conv_bcs(t[0]), conv_bcs(t[1]), st))
-        return sh.line("int:%d" % f(conv_str(t[0]), conv_str(t[1]), st))
+        byt = is_bytes(t[0])
+        a, b = (conv_bcs(t[0]), conv_bcs(t[1])) if byt else (conv_str(t[0]), conv_str(t[1]))
+        if ic:                                  # IGNORECASE: occurrences are compared up to case
+            a, b = [low(c, not byt) for c in a], [low(c, not byt) for c in b]
+        return sh.line("int:%d" % f(a, b, st))
     if name in ("tolower", "toupper"):
         f = up if name == "toupper" else low
         v = t[0]
@@ -546,6 +751,9 @@ def oracle_expected(op, table, sh):
                 pieces = spec_split_blank(s)
             elif not d:
                 pieces = [[c] for c in s]
+            elif ic:
+                dd = {up(c, not byt) for c in d}
+                pieces = spec_split_pred(s, lambda c: up(c, not byt) in dd)
             else:
                 pieces = spec_split_set(s, set(d))
         ty = "mbs" if byt else "str"
@@ -554,6 +762,13 @@ def oracle_expected(op, table, sh):
         else:
             sh.C = "map{" + ",".join("%s=%s" % (hx([ord(c) for c in str(k + 1)]), tvp((ty, x))) for k, x in enumerate(pieces)) + "}"
         return sh.line("int:%d" % len(pieces))
+    if name in ("sub0", "gsub0"):
+        pt, rp, rc = t
+        pat = pat_string(pt)
+        s = conv_str(rc)
+        out, cnt = spec_subst(lambda k: lookup(tbl, "c", pat, s, k), s, conv_str(rp), 1 if name == "sub0" else None)
+        new = out if cnt else s
+        return sh.line("int:%d" % cnt, len(spec_split_blank(new)), new)       # NF = blank-separated fields of the new record
     if name in ("sub", "gsub"):
         pt, rp, tg = t
         pat = pat_string(pt)
@@ -654,6 +869,9 @@ SPECIAL_SUBJ = ["N", I(0), I(12), I(-121), I(1221), F("1.5"), F("-12.25"), K(0xE
 
 def rand_subject(rng, maxlen=12):
     n = rng.randrange(0, maxlen + 1)
+    if rng.random() < 0.25:          # repetitive text over two or three letters: overlapping partial matches
+        small = rng.choice([[0x61, 0x62], [0x61, 0x62, 0xE9], [0x61, 0x41, 0x62], [0x78, 0x20]])
+        return [rng.choice(small) for _ in range(n)]
     pool = [0x61, 0x62, 0xE9, 0x61, 0x62, 0x20, 0x2C, 0x41, 0xC9, 0x5D0, 0x4E2D, 0x58, 0x09]
     return [rng.choice(pool) for _ in range(n)]
 
@@ -714,6 +932,23 @@ def gen_exhaustive(tier):
             for st in ["-", I(-2), I(0), I(2), I(4)]:
                 ops.append(("index", [B(utf8(cs)), B(utf8(p)), st], False))
                 ops.append(("rindex", [B(utf8(cs)), S(p), st], True))
+    # self-overlapping needles in repetitive subjects (a search that resumes anywhere but one character further on
+    # loses occurrences only there): subjects up to 6 over {a,b} x needles of length 2..3
+    ab = [0x61, 0x62]
+    for cs in strings_upto(6, ab):
+        if len(cs) < 3:
+            continue
+        for p in strings_upto(3, ab):
+            if len(p) < 2:
+                continue
+            ops.append(("index", [S(cs), S(p), "-"], len(cs) % 2 == 0))
+            ops.append(("index", [B(cs), B(p), "-"], True))
+            ops.append(("rindex", [S(cs), S(p), "-"], True))
+            if len(cs) <= 5:
+                ops.append(("rindex", [B(cs), B(p), "-"], True))
+                ops.append(("i:index", [S([c - 32 if k % 2 else c for k, c in enumerate(cs)]), S(p), "-"], True))
+                ops.append(("i:index", [B(cs), B([c - 32 for c in p]), "-"], False))
+                ops.append(("i:rindex", [S(cs), S([c - 32 for c in p]), "-"], True))
     for v in SPECIAL_SUBJ + [Ch(0x61), Ch(0xE9), K(0x61)]:
         for p in [Ss("a"), Ss(""), Ch(0x61), K(0x61), B([0xC3, 0xA9]), I(1), I(2), "N", Ss("é"), F("1.5")]:
             for st in ["-", I(2), I(-1)]:
@@ -775,7 +1010,162 @@ def gen_exhaustive(tier):
             for st in ["-", I(2), I(-1), I(9), I(-9), F("1.5"), "N"]:
                 ops.append(("smatch", [v, p, st], True))
             ops.append(("smatcha", [v, p, I(1)], True))
+    # two-argument sub/gsub: the record $0 is the target and NF follows
+    for cs in strings_upto(4, [0x61, 0x62, 0x20]):
+        for pp in ["a", "b*", " ", " +", "", "$", "^", "a|ab", "."]:
+            ops.append(("gsub0", [Rs(pp), Ss("x"), S(cs)], len(cs) % 2 == 1))
+            ops.append(("sub0", [Rs(pp), Ss(" & "), S(cs)], False))
+            ops.append(("gsub0", [Ss(pp), Ss(" "), S(cs)], False))
+            ops.append(("gsub0", [Rs(pp), Ss(""), S(cs)], True))
+    for rp in [Ch(0x20), K(0x2D), I(7), "N", B([0x5C, 0x26]), Ss("a b")]:
+        for cs in [[0x61, 0x20, 0x62], [0x20, 0x61], [0x61]]:
+            ops.append(("gsub0", [Rs("a"), rp, S(cs)], False)); ops.append(("sub0", [Ch(0x61), rp, S(cs)], True))
+    ops += gen_modstr_exhaustive()
+    ops += gen_ignorecase_exhaustive()
     return ops
+
+
+MIXED = [0x61, 0x41, 0xE9, 0xC9, 0x62]           # a A é É b
+WS = [0x61, 0x20, 0x09]                          # a, blank, tab
+CLASS_CHARS = [0x61, 0x5A, 0x35, 0x20, 0x09, 0x0A, 0x21, 0x5F, 0x7E, 0x01, 0x7F, 0xE9, 0xC9, 0x66, 0x47, 0x2D]
+ENCS = ["-", Ss("utf8"), Ss("nosuch"), Ss("")]
+
+
+def gen_modstr_exhaustive():
+    """the str:: functions implemented in mod-str.c itself"""
+    ops = []
+    for cs in strings_upto(5, WS):
+        for v in subj_variants(cs):
+            for fn in ("trim", "ltrim", "rtrim", "normspace"):
+                ops.append((fn, [v], True))
+        ops.append(("trimf", [S(cs), I(1)], True)); ops.append(("trimf", [B(cs), I(0)], True))
+    for cs in strings_upto(4, [0x62, 0x20, 0x0A]):
+        ops.append(("normspace", [S(cs)], True)); ops.append(("trim", [B(cs)], True))
+    for v in SPECIAL_SUBJ + [Ch(0x20), K(0x20), Ch(0x61), K(0x09)]:
+        for fn in ("trim", "ltrim", "rtrim", "normspace"):
+            ops.append((fn, [v], True))
+        for f in ["-", I(0), I(1), I(2), I(3), I(-1), F("1.5"), "N"]:
+            ops.append(("trimf", [v, f], True))
+    # subchar / tocharcode: every position around the value
+    for cs in strings_upto(3):
+        for v in subj_variants(cs):
+            for pos in NUMS + ["N"]:
+                ops.append(("subchar", [v, pos], True))
+                ops.append(("tocharcode", [v, pos], True))
+            ops.append(("tocharcode", [v, "-"], True))
+    for v in SPECIAL_SUBJ:
+        for pos in ["-", I(0), I(1), I(2), I(-1), I(9), F("2.7")]:
+            ops.append(("tocharcode", [v, pos], True))
+            if pos != "-":
+                ops.append(("subchar", [v, pos], True))
+    # fromcharcode / frombcharcode: 0..3 codes
+    codes = [I(0x41), I(0xE9), I(0x4E2D), I(0), I(0x7F), I(0xFF), F("65.9"), "N", I(0x100), I(0xD7FF), I(0xFFFF)]
+    bcodes = [I(0x41), I(0xE9), I(0), I(0xFF), I(0x80), F("65.9"), "N"]
+    ops.append(("fromcharcode", [], True)); ops.append(("frombcharcode", [], True))
+    for n in (1, 2, 3):
+        for tup in itertools.product(codes if n < 3 else codes[:5], repeat=n):
+            ops.append(("fromcharcode", list(tup), True))
+        for tup in itertools.product(bcodes if n < 3 else bcodes[:5], repeat=n):
+            ops.append(("frombcharcode", list(tup), True))
+    # class tests: every class x strings up to 2 over characters of every class, in every carrying type
+    for name in CLASSES:
+        for cs in strings_upto(2, CLASS_CHARS):
+            ops.append(("is:" + name, [S(cs)], True))
+            if all(c < 0x80 for c in cs):
+                ops.append(("is:" + name, [B(cs)], True))
+            if len(cs) == 1:
+                ops.append(("is:" + name, [Ch(cs[0])], True)); ops.append(("is:" + name, [K(cs[0])], True))
+        for v in ["N", I(12), I(-1), F("1.5"), B([0xC3, 0xA9]), K(0xE9), Ss("abcXYZ"), Ss("09afAF"), Ss(" \t "), B([0x61, 0xFF])]:
+            ops.append(("is:" + name, [v], True))
+    # tombs / frommbs
+    for cs in strings_upto(3):
+        for v in subj_variants(cs):
+            for e in ENCS:
+                ops.append(("tombs", [v, e], True)); ops.append(("frommbs", [v, e], True))
+    for v in SPECIAL_SUBJ + [Ch(0x4E2D), Ss("a\u4e2d".encode().decode("unicode_escape"))]:
+        for e in ENCS[:3]:
+            ops.append(("tombs", [v, e], True)); ops.append(("frommbs", [v, e], True))
+    # tonum: numbers as they are; digit strings in each base and carrying type
+    digs = ["0", "1", "7", "10", "101", "12", "77", "9", "ff", "1F", "-12", "+5", "-ff", "z", "", "1.5", "010", "0x1f", " 12", "12 "]
+    for d in digs:
+        for base in ["-", I(2), I(8), I(10), I(16), "N", I(0), I(3), I(-1), F("10.5")]:
+            for v in subj_variants([ord(c) for c in d]):
+                ops.append(("tonum", [v, base], True))
+    for v in ["N", I(0), I(12), I(-121), F("1.5"), F("-12.25")]:
+        for base in ["-", I(2), I(16), "N"]:
+            ops.append(("tonum", [v, base], True))
+    return ops
+
+
+def gen_ignorecase_exhaustive():
+    """IGNORECASE = 1: index/rindex and the character tokeniser fold case themselves; the regex-driven calls use the
+    case-insensitive compilation (table taken under the same setting)"""
+    ops = []
+    pats = list(strings_upto(2, [0x61, 0x41, 0xC9]))
+    for cs in strings_upto(3, MIXED[:4]):
+        for p in pats:
+            ops.append(("i:index", [S(cs), S(p), "-"], len(cs) % 2 == 0))
+            ops.append(("i:rindex", [S(cs), S(p), "-"], True))
+            ops.append(("i:index", [B(utf8(cs)), B(utf8(p)), "-"], False))
+            ops.append(("i:rindex", [B(utf8(cs)), S(p), "-"], True))
+            for st in [I(-2), I(2)]:
+                ops.append(("i:index", [S(cs), S(p), st], True))
+                ops.append(("i:rindex", [S(cs), S(p), st], True))
+    for cs in strings_upto(3, MIXED):
+        for sp in [Ss("a"), Ss("A"), Ss("é"), Ss("É"), Ch(0x42), K(0x41), Ss(" "), "-", Ss(""), Rs("a"), Rs("B+"), Ss("aB"), Rs("é")]:
+            ops.append(("i:split", [S(cs), sp], len(cs) % 2 == 1))
+            if len(cs) <= 3:
+                ops.append(("i:splita", [B(utf8(cs)), sp], True))
+        for p in ["a", "B*", "é", "^A", "b$", "a|Ab"]:
+            ops.append(("i:gsub", [Rs(p), Ss("[&]"), S(cs)], False))
+            ops.append(("i:sub", [Ss(p), Ss("-"), B(utf8(cs))], True))
+            ops.append(("i:match", [S(cs), Rs(p)], False))
+            ops.append(("i:smatch", [S(cs), Rs(p), I(2)], True))
+    return ops
+
+
+def rand_modstr(rng, cs, v):
+    k = rng.random()
+    if k < 0.3:
+        ws = [rng.choice([0x20, 0x20, 0x09, 0x0A, 0x61, 0x62, 0xE9, 0x2C]) for _ in range(rng.randrange(0, 12))]
+        w = typed(rng, ws)
+        fn = rng.choice(["trim", "ltrim", "rtrim", "normspace", "trimf"])
+        return (fn, [w, rng.choice(["-", I(0), I(1), I(3)])], True) if fn == "trimf" else (fn, [w], True)
+    if k < 0.5:
+        fn = rng.choice(["subchar", "tocharcode"])
+        pos = rand_num(rng, len(cs))
+        return (fn, [v, pos], True)
+    if k < 0.62:
+        wide = rng.random() < 0.5
+        n = rng.randrange(0, 6)
+        pool = [0x41, 0x61, 0xE9, 0x4E2D, 0x20, 0x7A, 0xFFFD, 0x100] if wide else [0x41, 0x61, 0xE9, 0xFF, 0x00, 0x80, 0x20]
+        return ("fromcharcode" if wide else "frombcharcode", [I(rng.choice(pool)) for _ in range(n)], True)
+    if k < 0.8:
+        w = [rng.choice(CLASS_CHARS) for _ in range(rng.randrange(0, 5))]
+        return ("is:" + rng.choice(CLASSES), [typed(rng, w) if all(c < 0x80 for c in w) or rng.random() < 0.5 else S(w)], True)
+    if k < 0.9:
+        return (rng.choice(["tombs", "frommbs"]), [v, rng.choice(ENCS)], True)
+    d = rng.choice(["", "-"]) + "".join(rng.choice("0123456789abcdefF") for _ in range(rng.randrange(1, 6)))
+    return ("tonum", [typed(rng, [ord(c) for c in d]), rng.choice(["-", I(2), I(8), I(10), I(16), I(16)])], True)
+
+
+def rand_ignorecase(rng, seps, pats):
+    cs = [rng.choice(MIXED + [0x20, 0x2C, 0x58, 0x78]) for _ in range(rng.randrange(0, 10))]
+    v = typed(rng, cs)
+    k = rng.random()
+    if k < 0.4:
+        if cs and rng.random() < 0.7:
+            a = rng.randrange(0, len(cs)); b = rng.randrange(a, min(len(cs), a + 3) + 1)
+            p = [{0x61: 0x41, 0x41: 0x61, 0xE9: 0xC9, 0xC9: 0xE9, 0x62: 0x42, 0x58: 0x78, 0x78: 0x58}.get(c, c) if rng.random() < 0.5 else c for c in cs[a:b]]
+        else:
+            p = [rng.choice(MIXED) for _ in range(rng.randrange(0, 3))]
+        return (rng.choice(["i:index", "i:rindex"]), [v, typed(rng, p), rng.choice(["-", "-", rand_num(rng, len(cs))])], True)
+    if k < 0.65:
+        return (rng.choice(["i:split", "i:splita"]), [v, rng.choice([Ss("x"), Ss("X"), Ss("É"), Ch(0x61), K(0x58), Ss(","), Rs("x+"), Rs("[xa]"), "-"])], True)
+    p = Rs(rng.choice(["a", "B*", "é", "x", "A|b", "^a", "X$", "[a-b]"]))
+    if k < 0.85:
+        return (rng.choice(["i:sub", "i:gsub"]), [p, Ss(rng.choice(["-", "<&>", ""])), v], rng.random() < 0.5)
+    return ("i:smatch", [v, p, rng.choice(["-", rand_num(rng, len(cs))])], True)
 
 
 def gen_random(rng, n):
@@ -785,8 +1175,17 @@ def gen_random(rng, n):
     for _ in range(n):
         cs = rand_subject(rng)
         v = typed(rng, cs) if rng.random() < 0.9 else rng.choice(SPECIAL_SUBJ)
-        k = rng.random()
         twin = rng.random() < 0.5
+        q = rng.random()
+        if q < 0.16:
+            ops.append(rand_modstr(rng, cs, v)); continue
+        if q < 0.24:
+            ops.append(rand_ignorecase(rng, seps, pats)); continue
+        if q < 0.28:
+            rc = [rng.choice([0x61, 0x62, 0x20, 0x20, 0x09, 0x2C, 0xE9]) for _ in range(rng.randrange(0, 12))]
+            tp = [rng.choice([0x78, 0x26, 0x5C, 0x20, 0x20]) for _ in range(rng.randrange(0, 5))]
+            ops.append((rng.choice(["sub0", "gsub0", "gsub0"]), [Rs(rng.choice(["a", "b*", " +", " ", ",", "^", "$", "é", "[ab]", ""])), S(tp), S(rc)], rng.random() < 0.5)); continue
+        k = rng.random()
         if k < 0.06:
             ops.append(("length", [v], twin))
         elif k < 0.14:
@@ -827,7 +1226,17 @@ def gen_random(rng, n):
 def branch_tags(op, table, result):
     name, t, twin = op
     tags = set()
+    if name.startswith("i:"):
+        tags.add("ignorecase"); name = name[2:]
+    if name.startswith("is:") or name in ("trim", "ltrim", "rtrim", "normspace", "trimf", "subchar", "tocharcode", "fromcharcode",
+                                          "frombcharcode", "tombs", "frommbs", "tonum"):
+        tags.add("mod-str")
+        if result and result.startswith(("nil", "int:0")):
+            tags.add("mod-str-negative")
+        return tags
     kinds = "".join(x[0] for x in t)
+    if name in ("sub0", "gsub0"):
+        tags.add("record-target")
     if any(k in kinds for k in "BK"):
         tags.add("bytes")
     if any(k in kinds for k in "CK"):
@@ -859,7 +1268,7 @@ def branch_tags(op, table, result):
     return tags
 
 
-NONTRIVIAL = {"bytes", "charval", "num-or-nil-arg", "fractional", "start<=0", "empty-match", "split-rex", "ampersand", "backslash", "multi"}
+NONTRIVIAL = {"ignorecase", "mod-str", "record-target", "bytes", "charval", "num-or-nil-arg", "fractional", "start<=0", "empty-match", "split-rex", "ampersand", "backslash", "multi"}
 
 
 # ----------------------------------------------------------------------------------------------
@@ -1067,7 +1476,42 @@ def spec_sig(op, h, g, table):
 
 # ----------------------------------------------------------------------------------------------
 def describe(op):
-    return stmt(0, op).replace("D(0, ", "print (")
+    return stmt(0, op).replace("D(0, RV)", "print RV").replace("D(0, ", "print (")
+
+
+INIT_FIELDS = dict(T="nil", C="nil", RS="nil", RL="nil")
+
+
+def fields(line):
+    w = line.split(" ")
+    return w[0], dict(x.split("=", 1) for x in w[1:] if "=" in x)
+
+
+def model_mismatches(ops, results, model, starts):
+    """ops on which the Lean model and the implementation BEHAVE differently: different result, or a state field that
+    differs now and was not simply carried along unchanged by both sides (after one genuine difference the two states
+    differ in that field until it is written again; that must not count again on every later call)"""
+    out = []
+    pi = pm = None
+    for i in range(len(ops)):
+        if i in starts or results[i] is None or model[i] is None:
+            pi, pm = dict(INIT_FIELDS), dict(INIT_FIELDS)
+        if results[i] is None or model[i] is None:
+            continue
+        if str(model[i]).startswith("unmodelled") or str(model[i]).startswith("NOENTRY unmodelled"):
+            r, fi = fields(results[i])
+            pi = fi
+            continue
+        ri, fi = fields(results[i])
+        rm, fm = fields(model[i])
+        bad = ri != rm
+        for k in fi:
+            if fi.get(k) != fm.get(k) and not (pi is not None and fi.get(k) == pi.get(k) and fm.get(k) == pm.get(k)):
+                bad = True
+        if bad:
+            out.append(i)
+        pi, pm = fi, fm
+    return out
 
 
 def build(ctx):
@@ -1080,7 +1524,7 @@ def check_ops(ctx, exe, ops):
     """returns (results, tables, model, crashes, mismatches[i])"""
     results, tables, starts, crashes = run_impl(ctx, exe, ops)
     model = run_model(ctx, ops, tables, starts)
-    mism = [i for i in range(len(ops)) if results[i] is not None and results[i] != model[i]]
+    mism = model_mismatches(ops, results, model, starts)
     return results, tables, model, crashes, mism
 
 
@@ -1114,9 +1558,13 @@ def corpus_ops():
 THEOREMS_ABOUT = {
     "substr": "substr_spec, substr_get", "index": "index_first_occurrence_or_zero, index_empty_pattern", "rindex": "rindex_last_occurrence_or_zero",
     "split": "split_join, split_pieces_free, splitPieces dispatch", "splita": "split_join", "sub": "sub_first_match, gsub_leftmost_nonoverlapping, expand_*",
-    "gsub": "gsub_leftmost_nonoverlapping, matchSeq_*, expand_*", "match": "match_sets_rstart_rlength", "matcha": "match_sets_rstart_rlength",
+    "gsub": "gsub_leftmost_nonoverlapping, matchSeq_*, expand_*", "sub0": "subst0_spec, sub_first_match", "gsub0": "subst0_spec, gsub_leftmost_nonoverlapping", "match": "match_sets_rstart_rlength", "matcha": "match_sets_rstart_rlength",
     "smatch": "match_sets_rstart_rlength, matchCore_spec", "smatcha": "match_sets_rstart_rlength", "length": "length_spec",
-    "tolower": "tolower_idempotent, case_length", "toupper": "case_length"}
+    "tolower": "tolower_idempotent, case_length", "toupper": "case_length",
+    "trim": "trim_spec, trim_kind", "ltrim": "trim_spec", "rtrim": "trim_spec", "trimf": "trim_kind", "normspace": "compact_keeps_nonspace",
+    "subchar": "subchar_spec, charAt_spec", "tocharcode": "charAt_spec, tocharcode_fromcharcode", "fromcharcode": "tocharcode_fromcharcode",
+    "frombcharcode": "frombcharcode_spec", "tombs": "tombs_frommbs", "frommbs": "tombs_frommbs", "tonum": "tonum_spec",
+    "i:index": "index_ignorecase", "i:rindex": "index_ignorecase", "i:split": "split_ignorecase_id", "i:splita": "split_ignorecase_id"}
 
 
 def run(ctx):
@@ -1160,6 +1608,14 @@ def run(ctx):
     seen = set()
     for i, exp, got in hits:
         op = ops[i]
+        sig = oracle_sig(op, exp, got) if not exp.startswith("matcher table") else None
+        if sig:
+            if sig not in seen:
+                seen.add(sig)
+                ctx.problem("impl", "%s: hawk gives [%s] but the defining equations give [%s]" % (describe(op), got.split(" ")[0], exp.split(" ")[0]),
+                            "# hawk 'BEGIN { %s }'\n# op line (corpus format): %s%s %s\n" % (describe(op), op[0], "+" if op[2] else "", " ".join(op[1])),
+                            found_input=True, sig=sig)
+            continue
         key = (op[0], "".join(x[0] for x in op[1][:1]))       # one report per builtin and kind of first argument
         if key in seen or len(seen) >= 8:
             continue
@@ -1196,14 +1652,14 @@ def run(ctx):
     # ---- (2) correspondence with the Lean model ---------------------------------------------------------------
     t = time.time()
     model = run_model(ctx, ops, tables, starts)
-    mism = [i for i in range(len(ops)) if results[i] is not None and results[i] != model[i]]
+    mism = model_mismatches(ops, results, model, starts)
     ctx.log("correspondence with the Lean model: %.1fs, %d differing lines" % (time.time() - t, len(mism)))
     only_model = [i for i in mism if i not in hit_idx]
     if only_model and not impl_found:
         i = only_model[0]
         op = ops[i]
         ctx.problem("corr", "model and implementation differ although the property oracle is clean on all %d calls: first at %s: impl [%s] model [%s] (theorems about this model function: %s)" % (
-            checked, describe(op), results[i], model[i], THEOREMS_ABOUT.get(op[0], "?")),
+            checked, describe(op), results[i], model[i], THEOREMS_ABOUT.get(op[0], THEOREMS_ABOUT.get(op[0][2:], "isClass_spec, isclass_kind" if op[0].startswith("is:") else "?"))),
             "# correspondence HawkModel.StrFn <-> lib/fnc.c no longer holds (%d differing lines); first:\n# op line (corpus format): %s%s %s\n# impl : %s\n# model: %s\n# matcher table: %s\n" % (
                 len(only_model), op[0], "+" if op[2] else "", " ".join(op[1]), results[i], model[i], tables[i]), found_input=False)
     # ---- coverage
@@ -1223,12 +1679,13 @@ def run(ctx):
                     "by-reference target, collection, RSTART/RLENGTH, NF, $0, sentinel and global signature checked (1) against the defining equations evaluated in python on hawk's own output, "
                     "(2) against gawk and mawk on the POSIX subset, (3) line by line against the Lean model (regex engine given as data); "
                     "distinct_nontrivial = distinct calls with a byte/char/numeric/nil argument, a start<=0 or fractional number, "
-                    "an empty regex match in their table, a regex separator, &/\\ in the template or >=2 pieces/replacements",
+                    "an empty regex match in their table, a regex separator, &/\\ in the template or >=2 pieces/replacements, any call under IGNORECASE=1 and any call of a function implemented in mod-str.c itself",
                     samples, extra_cov=dict(op_distribution=dist, branch_tags=tagd, second_opinion=dict(compared=compared, agree=agree3, disagree=len(dis)),
                                             oracle_checked=checked, oracle_hits=len(hits), crashes=len(crashes), model_mismatches=len(mism)),
                     trusted=["string builtins modelled by hand in HawkModel/StrFn.lean; UTF-8 codec, CONVFMT number formatting, character classes/case tables and the regex engine are parameters of the model (Env), instantiated in the driver by small re-implementations / by the real engine's answers as data",
                              "harness/strfn_h.c observation builtins (tv, rawtable, gsig) read internal value representations correctly"],
-                    assumptions=["IGNORECASE=0, STRIPRECSPC off, default FS/SUBSEP/CONVFMT; no '?'-quoted field mode; numeric arguments are int/float/nil values (not numeric strings)",
+                    assumptions=["IGNORECASE 0 and 1, STRIPRECSPC off, default FS/SUBSEP/CONVFMT; no '?'-quoted field mode; numeric arguments are int/float/nil values (not numeric strings)",
+                                 "str::tonum on strings: sign + digits valid in base 2/8/10/16 or automatic (the number parser proper is C11's); character classes and case maps over ASCII + Latin-1 letters",
                                  "hawk_int_t arithmetic does not overflow (|start|,|len| < 2^62)", "patterns compile; sub-match groups of match(s,r,arr) not modelled",
                                  "two-argument sub/gsub (target $0) and length() without argument are left to C03 (record handling)"])
 
